@@ -162,6 +162,18 @@ CLAIMED = {
             "decided.",
             "Trusted: rustc nightly MIR; the evaluator's model of string equality for the nominal table.",
             "DESIGN.md §4 C17"),
+    "C14": ("call-graph single-resolver rule restricted to the front ends' closure, dominance of extension probes and "
+            "visited-set tests, exhaustive decision tables of the visibility predicates (constant propagation over "
+            "MIR), provenance slices of the dependency-exports key, error-on-unresolved rule",
+            "Decides: which functions reachable from CLI/LSP resolve imports to files (the CLI has its own resolver: "
+            "listed, reproduced against incan-lsp); `.incn` before `.incan` in each; foreign declarations collected "
+            "only under is_public_decl, and is_public_decl / exported_symbols are exactly `visibility == Public` for "
+            "all 9 declaration kinds x 2; lookup and registration keys of dependency exports agree (the LSP's do "
+            "not: reproduced); visited-set tests dominate work in both work lists; an unresolved import reports an "
+            "error (it does not: reproduced). Which file every import spelling denotes on every layout is not "
+            "decided.",
+            "Trusted: rustc nightly MIR; the evaluator's model of Vec iteration in exported_symbols.",
+            "DESIGN.md §4 C14"),
 }
 
 NOT_APPLICABLE = {
